@@ -32,3 +32,9 @@ Theorem C19_display_is_text : forall g static_text strs rs p e,
   display_of static_text strs g (fst (preorder g false rs p)) = gtext static_text strs e.
 Proof. intros. apply display_is_text. assumption. Qed.
 Print Assumptions C19_display_is_text.
+
+(* every source fact this property's model depends on was found by the translator in the current
+   source (otherwise the model would be running on the values the proofs were written for) *)
+Theorem C19_facts_extracted : CsModel.Extracted.facts_found_C19 = true.
+Proof. reflexivity. Qed.
+Print Assumptions C19_facts_extracted.
